@@ -62,6 +62,12 @@ func (x *fnExec) doCall(st *State, site ssa.Instruction, call *ssa.CallCommon, m
 	c := x.calleeContract(call)
 	name := x.calleeName(call)
 	ord := x.siteOrd[site]
+	for _, ac := range x.c.AtCall {
+		if ac.Target == name && mode != "go" {
+			g := x.evalClause(st, x.ctx(st), ac)
+			x.emit(st, fmt.Sprintf("atcall.%s.%s#%d", name, ac.Label, ord), "atcall", ac.Label, ac.Props, g, "before "+name+": "+ac.Src)
+		}
+	}
 	var callee *ssa.Function
 	if !call.IsInvoke() {
 		callee = call.StaticCallee()
@@ -126,7 +132,7 @@ func (x *fnExec) doCall(st *State, site ssa.Instruction, call *ssa.CallCommon, m
 	pre := &EvalCtx{v: v, pkg: pkg, vars: vars, st: st}
 	if mode != "defer-skip-pre" {
 		for _, r := range c.Requires {
-			t, err := pre.Eval(r.E)
+			t, err := x.evalIn(st, pre, r.E)
 			if err != nil {
 				fail("%s: call-pre %s.%s: %v", x.fnName(), c.Key, r.Label, err)
 			}
@@ -146,7 +152,7 @@ func (x *fnExec) doCall(st *State, site ssa.Instruction, call *ssa.CallCommon, m
 	if mode == "go" {
 		post := &EvalCtx{v: v, pkg: pkg, vars: vars, st: st, old: oldHeap}
 		for _, e := range ens {
-			t, err := post.Eval(e.E)
+			t, err := x.evalIn(st, post, e.E)
 			if err != nil {
 				fail("%s: onspawn %s.%s: %v", x.fnName(), c.Key, e.Label, err)
 			}
@@ -173,7 +179,7 @@ func (x *fnExec) doCall(st *State, site ssa.Instruction, call *ssa.CallCommon, m
 	}
 	post := &EvalCtx{v: v, pkg: pkg, vars: vars, st: st, old: oldHeap}
 	for _, e := range append(append([]*Clause{}, ens...), c.Assumes...) {
-		t, err := post.Eval(e.E)
+		t, err := x.evalIn(st, post, e.E)
 		if err != nil {
 			fail("%s: call-post %s.%s: %v", x.fnName(), c.Key, e.Label, err)
 		}
